@@ -13,7 +13,10 @@ import sysconfig
 from .tlc import MachineryError, scratch
 
 REPO = os.environ.get("VERIF_REPO") or "/repo"
-TARGET = os.environ.get("VERIF_RUST_TARGET", "/tmp/solvor-verif-rust-target")
+# one cargo cache per source tree (checks of different trees may run side by side) - cargo itself serialises builds that
+# share a target directory with a file lock, so two checks of the same tree are safe as well
+TARGET = os.environ.get("VERIF_RUST_TARGET") or (
+    "/tmp/solvor-verif-rust-target" if REPO == "/repo" else "/tmp/solvor-verif-rust-target-" + __import__("hashlib").sha1(REPO.encode()).hexdigest()[:10])
 PY = os.environ.get("VERIF_PY", "/venv/bin/python")
 
 
@@ -34,6 +37,7 @@ def build_overlay():
             continue
         os.symlink(os.path.join(REPO, "solvor", f), os.path.join(pkg, f))
     suffix = subprocess.run([PY, "-c", "import sysconfig;print(sysconfig.get_config_var('EXT_SUFFIX'))"], capture_output=True, text=True).stdout.strip()
+    # copy under cargo's build lock would be ideal; re-run the (now no-op) build right before copying keeps the window small
     shutil.copy(so, os.path.join(pkg, "_solvor_rust" + suffix))
     return ov
 
